@@ -20,8 +20,8 @@ patches had to be re-applied by hand after the hook / fix commits moved their co
 
 """ + table + """
 What the misses have in common: (1) the change lives in `imports.rs` or behind `canonicalize` / the file system — oracles
-or identity stand-ins in the solver build (C14 is not applicable for the same reason); (2) it needs the analyzer to walk
-a non-trivial AST (C03 / C17 not applicable, parts of C06 / C07 / C15 / C18 / C19); (3) the layout needs three or more
+or identity stand-ins in the solver build (C14 is claimed for the module-to-file step only, for the same reason); (2) it needs the analyzer to walk
+a non-trivial AST (C03 / C17 are claimed for one text kernel each, parts of C06 / C07 / C15 / C18 / C19); (3) the layout needs three or more
 resolver calls on PathBuf-keyed state and the formula exceeds the memory cap — reported as `UNDECIDED`, never as a pass.
 A mutation can also make its own harness undecidable (C08-refs-per-directory-memo adds a `HashMap<PathBuf, _>` memo: the
 lean arms that take 92 s on the unchanged tree exceed 10 GB with it).
